@@ -824,6 +824,8 @@ def value_methods(ex, obj, name, args, kw, line):
             return Z(f(obj.t, ex.to_py(Tup(args))))
         if name == "startswith":
             return Z(z3.PrefixOf(ex.to_str(args[0], line), obj.t))
+        if name == "endswith":
+            return Z(z3.SuffixOf(ex.to_str(args[0], line), obj.t))
         if name == "encode":
             enc = const_str(args[0]) if args else "utf-8"
             if enc not in ("utf-8", "utf8"):
@@ -832,7 +834,7 @@ def value_methods(ex, obj, name, args, kw, line):
             return Z(f(obj.t))
     if isinstance(obj, Z) and obj.t.sort() == S.Py:
         # str methods on a Py known to be a str
-        if name in ("lower", "strip"):
+        if name in ("lower", "strip", "startswith", "endswith", "format"):
             s = ex.to_str(obj, line)
             return value_methods(ex, Z(s), name, args, kw, line)
     if isinstance(obj, Obj) and obj.cls == "dict":
